@@ -233,6 +233,45 @@ def relations(V, law):
             out.prove('a-leading-zero-period-does-not-change-the-other-rows', T.sand(*[T.sand(T.seq(Uz[r + 1, j], Ua[r, j]), T.seq(Vz[r + 1, j], Va[r, j])) for r in range(2) for j in range(n)]))
 
 
+@unit('C02', 'spectra-are-independent-of-batching-and-order', functions=[SD + 'pseudo_response_spectra', SD + 'true_response_spectra'],
+      cases=[dict(fn='pseudo_response_spectra'), dict(fn='true_response_spectra')], modes=('bounded',), sizes=dict(n=[3]), budget_ms=60000)
+def spectra_batching(V, fn):
+    """spectrum level of 'each period's result depends on that period only': S_d, S_v, S_a of a period are the same whether it is
+    computed in a list with another period (either order) or alone -- for periods on EITHER side of 6 dt (both symbolic)"""
+    st = {}
+
+    def setup():
+        n = V.size('n', 2)
+        a = V.array('a', n)
+        dt, xi = V.real('dt'), V.real('xi')
+        V.assume(dt > 0, xi >= 0, xi < 1)
+        T1, T2 = V.real('T1'), V.real('T2')
+        V.assume(T1 > 0, T2 > 0)
+        st.update(n=n, a=a, dt=dt, xi=xi, T1=T1, T2=T2)
+        return dict(motion=a, dt=dt, periods=V.np.np_array([T1, T2]), xi=xi)
+    f = V.itp.get_function(SD + fn)
+    for out in V.run(SD + fn, setup):
+        out.replay_info = dict(module='response_operator', law='spectra-batching', fn=fn)
+        if not out.no_raise():
+            continue
+        a, dt, xi, T1, T2 = (st[k] for k in ('a', 'dt', 'xi', 'T1', 'T2'))
+        both = out.result
+        ok = isinstance(both, tuple) and len(both) == 3
+        out.prove('returns-(S_d, S_v, S_a)', ok)
+        if not ok:
+            continue
+        try:
+            rev = V.itp.call(f, [a, dt, V.np.np_array([T2, T1]), xi], {})
+            one = [V.itp.call(f, [a, dt, V.np.np_array([Tk]), xi], {}) for Tk in (T1, T2)]
+        except T.PyExc as e:
+            out.prove('no-exception-for-a-sub-list[%s]' % e.kind, False)
+            continue
+        for q, nm in enumerate(('S_d', 'S_v', 'S_a')):
+            for r in range(2):
+                out.prove('%s-of-period-%d-is-the-same-when-computed-alone' % (nm, r), T.seq(both[q][r], one[r][q][0]), atomize=True)
+                out.prove('%s-of-period-%d-is-the-same-in-the-reversed-list' % (nm, r), T.seq(both[q][r], rev[q][1 - r]), atomize=True)
+
+
 # ------------------------------------------------------------------------------- spectral corollaries (over absmax's contract)
 @unit('C02', 'spectral-corollaries', functions=[], cases=[dict(law='scale-by-|alpha|'), dict(law='never-decrease-under-refinement')],
       modes=('unbounded',))
